@@ -108,5 +108,16 @@ META["C11"] = {"engine": "K-ack", "design_ref": "DESIGN.md §4 Engines P/N/B as 
                "level_text": ("Exploration: tens of thousands of generated histories per run on a fresh leader (and 1-2 followers) each; the harness owns the clock and parks the log writers, so the single-node layer is "
                               "deterministic and replays exactly; the cluster layer owns the ack frames but not the goroutine schedule."),
                "level_note": "Trusted: write errors modelled by closing the file under the writer; the proxy's frame parser; lower-bound quorum computation; sequential by construction (no ack-handler vs. unlock races). Four genuine defects are listed as known findings, three were repaired."}
+ENGINES["N-cluster"] = {"path": "harness/server/c09_ring_test.go, c09_engine_test.go, c09_cluster_test.go, c09_replay_test.go, c10_leader_only_test.go, c10_expiry_test.go, c10_replay_test.go", "props": ["C09", "C10"], "kind": "model-based PBT (rapid) of the replication ring buffer; stateful PBT of leader + followers as in-process instances on loopback sockets behind a harness proxy that cuts the replication stream at drawn byte offsets, stalls and drops it; differential (follower front end vs. leader) for client requests"}
+META["C09"] = {"engine": "N-cluster", "design_ref": "DESIGN.md §4 Engine N, §5 C09",
+               "technique": "model-based property testing (rapid) of the ring buffer against a sequence model, and stateful property testing with byte-offset fault injection of leader/follower clusters: follower snapshot and follower log vs. the leader's persisted state and complete log at quiescence",
+               "level_text": ("Exploration: millions of ring programs (pure, reproducible) and hundreds (quick) to thousands (thorough) of generated cluster cases with connection cuts at drawn byte offsets of both phases, joins with empty and stale directories, "
+                              "rotations and small rings. Inputs and fault plans replay, goroutine schedules do not: a failing cluster case is executed again on fresh clusters and reported only if the same failure shows again; otherwise it is counted as an unreproduced anomaly."),
+               "level_note": "Trusted: the harness proxy and its stream parser, quiescence detection by inspecting the channels (WaitFlushAofChannel is not a barrier), signatures that attribute a divergence to a listed known finding. Five replication races were repaired in /repo, four findings (compaction content, index hole, transfer vs. compaction) are listed as known."}
+META["C10"] = {"engine": "N-cluster", "design_ref": "DESIGN.md §4 Engine N, §5 C10",
+               "technique": "differential property testing (rapid): generated request scripts sent to the follower's front end (binary and text) vs. the same requests sent to the leader of an identical cluster; snapshot invariance of the non-leader under a stalled stream; follower clock advanced past replicated deadlines",
+               "level_text": ("Exploration: generated scripts with role changes forced between two requests of one connection; every relayed reply must equal the leader's reply or be a refusal, a non-leader's own state must not change. "
+                              "Real sockets and goroutines: failing scripts are re-executed and reported only when the failure repeats."),
+               "level_note": "Trusted: roles forced through SLock.updateState on a slaveof follower (no real election), the comparison cluster built from the same preload. Known: a non-leader answers concurrent-check probes from its own view; a follower never drops a replicated hold on its own clock (the 300 s bound is not reached)."}
 _NOT_BUILT = "check not built yet in this session (planned in DESIGN.md); not claimed rather than faked"
 NOT_APPLICABLE = {f"C{i:02d}": _NOT_BUILT for i in range(1, 21)}
